@@ -14,6 +14,14 @@ pub(crate) fn raw_storage<D: StorageData>(data: D) -> Storage<D> {
     }
 }
 
+pub(crate) fn data_of<D: StorageData>(s: &Storage<D>) -> &D {
+    &s.data
+}
+
+pub(crate) fn data_of_mut<D: StorageData>(s: &mut Storage<D>) -> &mut D {
+    &mut s.data
+}
+
 /// Array-backed storage that already contains the version record (what
 /// `Storage::new` produces on an empty back end).
 pub(crate) fn fresh_arr_storage() -> Storage<ArrStorage> {
